@@ -308,6 +308,36 @@ Lemma forallb_map_fst {A B} (f : A -> bool) (l : list (A * B)) :
   forallb f (map fst l) = forallb (fun p => f (fst p)) l.
 Proof. induction l as [|p r IH]; cbn; [reflexivity|]. rewrite IH. reflexivity. Qed.
 
+(* ---------------------------------------------------------------- sets *)
+Lemma map_norm_scalar W l : forallb scalar_key l = true -> map (norm W) l = l.
+Proof.
+  induction l as [|x r IH]; cbn [map forallb]; [reflexivity|]. intros H.
+  apply andb_true_iff in H as [H1 H2]. rewrite norm_scalar by exact H1. rewrite IH by exact H2. reflexivity.
+Qed.
+
+Lemma keys_distinct_fresh acc x r :
+  keys_distinct (acc ++ x :: r) = true -> existsb (fun y => veq false y x) acc = false.
+Proof.
+  induction acc as [|a acc IH]; cbn; [reflexivity|]. intros H.
+  apply andb_true_iff in H as [H1 H2]. rewrite (IH H2), orb_false_r.
+  apply negb_true_iff in H1.
+  destruct (veq false a x) eqn:E; [|reflexivity].
+  assert (X : existsb (fun k' => veq false a k') (acc ++ x :: r) = true).
+  { apply existsb_exists. exists x. split; [apply in_or_app; right; left; reflexivity|exact E]. }
+  congruence.
+Qed.
+
+Lemma set_fold_distinct ps : forall acc,
+  keys_distinct (acc ++ ps) = true -> fold_left set_add ps acc = acc ++ ps.
+Proof.
+  induction ps as [|x r IH]; intros acc H; cbn [fold_left]; [rewrite app_nil_r; reflexivity|].
+  unfold set_add at 2. rewrite (keys_distinct_fresh acc x r H).
+  rewrite IH by (rewrite <- app_assoc; exact H). rewrite <- app_assoc. reflexivity.
+Qed.
+
+Lemma set_of_distinct l : keys_distinct l = true -> set_of l = l.
+Proof. intros H. unfold set_of. rewrite set_fold_distinct; [reflexivity|exact H]. Qed.
+
 (* ---------------------------------------------------------------- the first half *)
 Theorem eval_repr_norm W E :
   builtins_free E ->
@@ -320,18 +350,28 @@ Proof.
     apply Forall_forall. intros x Hx. rewrite Forall_forall in H. apply H; [exact Hx|].
     intros u Hu. apply Hok. eapply subs_VList_in; eauto.
   - (* tuple *)
-    cbn [repr norm]. destruct l as [|y l]; [reflexivity|].
-    rewrite eval_EList, eval_list_repr; [reflexivity|].
+    cbn [repr norm]. rewrite eval_ETuple, eval_list_repr; [reflexivity|].
     apply Forall_forall. intros x Hx. rewrite Forall_forall in H. apply H; [exact Hx|].
     intros u Hu. apply Hok. eapply subs_VTuple_in; eauto.
   - (* set *)
-    cbn [repr norm]. destruct l as [|y l].
-    + assert (HF : forall n, is_builtin n = true -> env_lookup E n = None) by exact HB.
-      rewrite eval_ECall. cbn [eval_list eval_kws].
-      destruct f; rewrite apply_call_builtin by (apply HF; reflexivity); reflexivity.
-    + rewrite eval_EList, eval_list_repr; [reflexivity|].
+    destruct (Hok (VSet f l) (subs_self _ _)) as (Hwf & _).
+    cbn [wf_local] in Hwf. apply andb_true_iff in Hwf as [Hsc Hdi].
+    assert (HF : forall n, is_builtin n = true -> env_lookup E n = None) by exact HB.
+    assert (HE : eval_list W E (map (repr W) l) = Some l).
+    { rewrite eval_list_repr; [rewrite map_norm_scalar by exact Hsc; reflexivity|].
       apply Forall_forall. intros x Hx. rewrite Forall_forall in H. apply H; [exact Hx|].
-      intros u Hu. apply Hok. eapply subs_VSet_in; eauto.
+      intros u Hu. apply Hok. eapply subs_VSet_in; eauto. }
+    assert (Hh : forallb (hashable W) l = true).
+    { apply forallb_forall. intros x Hx. apply scalar_hashable. eapply forallb_forall in Hsc; eauto. }
+    assert (HS : eval W E (ESet (map (repr W) l)) = Some (VSet false l)).
+    { rewrite eval_ESet, HE, Hh, set_of_distinct by exact Hdi. reflexivity. }
+    cbn [repr norm]. rewrite map_norm_scalar by exact Hsc.
+    destruct l as [|y l].
+    + rewrite eval_ECall. cbn [eval_list eval_kws].
+      destruct f; rewrite apply_call_builtin by (apply HF; reflexivity); reflexivity.
+    + destruct f; [|exact HS].
+      rewrite eval_ECall. cbn [eval_list]. rewrite HS. cbn [eval_kws].
+      rewrite apply_call_builtin by (apply HF; reflexivity). reflexivity.
   - (* dict *)
     rewrite repr_VDict, norm_VDict, eval_EDict.
     destruct (Hok (VDict kv) (subs_self _ _)) as (Hwf & _).
@@ -375,7 +415,7 @@ Qed.
 
 (* ---------------------------------------------------------------- the second half *)
 Definition ok2 (W : world) (u : value) : Prop :=
-  wf_local W u = true /\ g_array_local u = true /\ g_init_local W u = true.
+  wf_local W u = true /\ g_init_local W u = true.
 
 Lemma skip_default_veq fd x :
   skip_default fd x = true -> exists d, default_of fd = Some d /\ veq false d x = true.
@@ -426,10 +466,14 @@ Proof.
   - cbn [norm]. rewrite veq_VList. apply veq_list_norm.
     apply Forall_forall. intros x Hx. rewrite Forall_forall in H. apply H; [exact Hx|].
     intros u Hu. apply Hok. eapply subs_VList_in; eauto.
-  - destruct (Hok (VTuple l) (subs_self _ _)) as (_ & Ha & _).
-    destruct l; [reflexivity|discriminate Ha].
-  - destruct (Hok (VSet f l) (subs_self _ _)) as (_ & Ha & _).
-    destruct l; [reflexivity|discriminate Ha].
+  - cbn [norm]. rewrite veq_VTuple. apply veq_list_norm.
+    apply Forall_forall. intros x Hx. rewrite Forall_forall in H. apply H; [exact Hx|].
+    intros u Hu. apply Hok. eapply subs_VTuple_in; eauto.
+  - cbn [norm]. rewrite veq_VSet, map_length, Nat.eqb_refl. cbn [andb].
+    apply forallb_forall. intros y Hy. apply in_map_iff in Hy as [x [<- Hx]].
+    apply existsb_exists. exists x. split; [exact Hx|].
+    rewrite Forall_forall in H. apply H; [exact Hx|].
+    intros u Hu. apply Hok. eapply subs_VSet_in; eauto.
   - rewrite norm_VDict, veq_VDict.
     assert (HF : Forall (fun p => veq true (norm W (fst p)) (fst p) = true
                                  /\ veq true (norm W (snd p)) (snd p) = true) kv).
@@ -439,7 +483,7 @@ Proof.
       - apply IHx. intros u Hu. apply Hok. rewrite subs_VDict. right. eapply subs_pairs_in; eauto. }
     clear H Hok. induction HF as [|[k x] r [Hk Hx] Hr IH]; [reflexivity|].
     cbn [norm_pairs veq_pairs]. cbn [fst snd] in Hk, Hx. rewrite Hk, Hx. exact IH.
-  - destruct (Hok (VObj c fs) (subs_self _ _)) as (Hwf & _ & Hi).
+  - destruct (Hok (VObj c fs) (subs_self _ _)) as (Hwf & Hi).
     cbn [wf_local] in Hwf. rewrite g_init_local_VObj in Hi. rewrite norm_VObj.
     destruct (find_data W c) as [fds|] eqn:Ef; [|discriminate Hwf].
     apply andb_true_iff in Hwf as [Hwf _]. apply andb_true_iff in Hwf as [Hwf _].
